@@ -92,6 +92,9 @@ CLAIMED.update(MORE3)
 NOT_APPLICABLE = {
     "C01": "the oracle is the Python clvm package; a contract cannot refer to it and a hand transcription would be a model of the oracle",
     "C17": "back-reference search runs on salted HashMaps via entry(), BitVec, function-pointer caches and sha256 keys: outside Verus's fragment and CBMC's reach; determinism is relational",
+    "C18": "both back-reference decoders drive an `impl FnMut` callback, and the current one resolves paths with `iter_mut().take(n)` over a slice of tuples whose second field it mutates through the iterator (lazy list cache): closures and IterMut are outside Verus's fragment, Kani cannot build an Allocator; the legacy decoder alone would not decide an agreement property",
+    "C19": "the incremental serializer is TreeCache + ReadCacheLookup: salted HashMaps driven through the Entry API, BitVec path sets and undo logs over them; no supported fragment, and salt-independence is a relation between runs with different RandomStates",
+    "C23": "compares the operator's cost with the cost of EVALUATING a particular ChiaLisp program on the same tree: that is a statement about interpreter traces of unbounded length (an induction over the whole run loop for a fixed program), not a per-function contract; the operator side (exact cost over the expanded tree) is proved under C10/C22, the program side would have to be a hand-written cost model of the program, which is a model and not the code",
     "C24": "intern_tree_limited is three HashMaps driven through the Entry API; no supported fragment, and Kani cannot build an Allocator",
     "C26": "Python/pyo3 bindings; no deductive verifier for Python is installed",
     "C27": "Python/pyo3 object protocol and identity-keyed memo; no deductive verifier for Python is installed",
